@@ -126,6 +126,13 @@ inductive Res (α : Type) where
   | oof
 deriving Repr, DecidableEq
 
+/-- sequencing: anything but `ok` is passed on -/
+def Res.bind {α β : Type} : Res α → (α → Res β) → Res β
+  | .ok a, g => g a
+  | .fail, _ => .fail
+  | .unsup, _ => .unsup
+  | .oof, _ => .oof
+
 /-! ### characters -/
 
 /-- `isspace` in the C locale. -/
@@ -355,10 +362,14 @@ def exponent (t : List Nat) : Int × List Nat :=
     else (0, t)
   | [] => (0, t)
 
-/-- `parse_number_value`: `strtod`, the `ERANGE`/`HUGE_VAL` test, `is_decimal`
-    on the consumed text and `json_value_init_number` (NULL for inf/nan).
-    Called on a text that starts with `-` or a digit. -/
-def parseNumber (s : List Nat) : Res (Json × List Nat) :=
+/-- The characters that end a value inside a container: white space, `,`, `]`, `}`.
+    None of them can be part of anything `strtod` reads. -/
+def isStop (c : Nat) : Bool := isSpace c || c == 44 || c == 93 || c == 125
+
+/-- `parse_number_value` on a text without stop characters: `strtod`, the
+    `ERANGE`/`HUGE_VAL` test, `is_decimal` on the consumed text and
+    `json_value_init_number` (NULL for inf/nan).  The text starts with `-` or a digit. -/
+def numCore (s : List Nat) : Res (Json × List Nat) :=
   let neg := s.head? = some 45
   let t := if neg then s.tail else s
   if prefixCI [105, 110, 102] t || prefixCI [110, 97, 110] t then .fail      -- -inf / -nan: IS_NUMBER_INVALID
@@ -379,6 +390,31 @@ def parseNumber (s : List Nat) : Res (Json × List Nat) :=
         | some (n, k) => .ok (.number n k, t3)
         | none => .unsup
 
+/-- `parse_number_value`.  What `strtod` reads ends at the latest before the
+    first stop character (it is the longest prefix of number form, and no stop
+    character occurs in one), so the text up to there decides. -/
+def parseNumber (s : List Nat) : Res (Json × List Nat) :=
+  (numCore (s.takeWhile fun c => !isStop c)).bind fun (v, r) => .ok (v, r ++ s.dropWhile fun c => !isStop c)
+
+/-- `parse_string_value`, `parse_boolean_value`, `parse_number_value`,
+    `parse_null_value` as `parse_value` dispatches to them on the first character. -/
+def parseScalar (s : List Nat) : Res (Json × List Nat) :=
+  match s with
+  | [] => .fail
+  | c :: r =>
+    if c = 34 then                                    -- '"'
+      match quotedString (c :: r) with
+      | some (str, rest) => .ok (.string str, rest)
+      | none => .fail
+    else if c = 116 ∨ c = 102 then                    -- 't' 'f'
+      if [116, 114, 117, 101].isPrefixOf (c :: r) then .ok (.bool true, (c :: r).drop 4)
+      else if [102, 97, 108, 115, 101].isPrefixOf (c :: r) then .ok (.bool false, (c :: r).drop 5)
+      else .fail
+    else if c = 45 ∨ isDigit c then parseNumber (c :: r)
+    else if c = 110 then                              -- 'n'
+      if [110, 117, 108, 108].isPrefixOf (c :: r) then .ok (.null, (c :: r).drop 4) else .fail
+    else .fail
+
 /-! ### values -/
 
 /-- `MAX_NESTING` -/
@@ -387,7 +423,8 @@ def maxNesting : Nat := 2048
 mutual
 /-- `parse_value(&s, nesting)` (with `parse_object_value` / `parse_array_value`
     up to their member loops).  The first argument is fuel: every call passes
-    one less to the calls it makes. -/
+    one less to the calls it makes (`Props/Json.parse_total`: the fuel `parse`
+    supplies is never exhausted). -/
 def parseValue : Nat → Nat → List Nat → Res (Json × List Nat)
   | 0, _, _ => .oof
   | f + 1, nesting, s =>
@@ -401,35 +438,14 @@ def parseValue : Nat → Nat → List Nat → Res (Json × List Nat)
           | [] => .fail
           | d :: r' =>
             if d = 125 then .ok (.object [], r')
-            else
-              match parseMembers f (nesting + 1) (d :: r') [] with
-              | .ok (ms, rest) => .ok (.object ms, rest)
-              | .fail => .fail
-              | .unsup => .unsup
-              | .oof => .oof
+            else (parseMembers f (nesting + 1) (d :: r') []).bind fun (ms, rest) => .ok (.object ms, rest)
         else if c = 91 then                               -- '['
           match skipWs r with
           | [] => .fail
           | d :: r' =>
             if d = 93 then .ok (.array [], r')
-            else
-              match parseElems f (nesting + 1) (d :: r') with
-              | .ok (vs, rest) => .ok (.array vs, rest)
-              | .fail => .fail
-              | .unsup => .unsup
-              | .oof => .oof
-        else if c = 34 then                               -- '"'
-          match quotedString (c :: r) with
-          | some (str, rest) => .ok (.string str, rest)
-          | none => .fail
-        else if c = 116 ∨ c = 102 then                    -- 't' 'f'
-          if [116, 114, 117, 101].isPrefixOf (c :: r) then .ok (.bool true, (c :: r).drop 4)
-          else if [102, 97, 108, 115, 101].isPrefixOf (c :: r) then .ok (.bool false, (c :: r).drop 5)
-          else .fail
-        else if c = 45 ∨ isDigit c then parseNumber (c :: r)
-        else if c = 110 then                              -- 'n'
-          if [110, 117, 108, 108].isPrefixOf (c :: r) then .ok (.null, (c :: r).drop 4) else .fail
-        else .fail
+            else (parseElems f (nesting + 1) (d :: r')).bind fun (vs, rest) => .ok (.array vs, rest)
+        else parseScalar (c :: r)
 /-- The `while (**string != '\0')` loop of `parse_object_value`, entered at a
     key; `seen` = the names already added (`json_object_add` refuses a
     duplicate name: the whole parse fails). -/
@@ -446,22 +462,14 @@ def parseMembers : Nat → Nat → List Nat → List (List Nat) → Res (Members
         | c :: r2 =>
           if c ≠ 58 then .fail
           else
-            match parseValue f nesting r2 with
-            | .fail => .fail
-            | .unsup => .unsup
-            | .oof => .oof
-            | .ok (v, r3) =>
+            (parseValue f nesting r2).bind fun (v, r3) =>
               if seen.contains key then .fail
               else
                 match skipWs r3 with
                 | [] => .fail
                 | d :: r4 =>
                   if d = 44 then
-                    match parseMembers f nesting (skipWs r4) (key :: seen) with
-                    | .ok (ms, rest) => .ok ((key, v) :: ms, rest)
-                    | .fail => .fail
-                    | .unsup => .unsup
-                    | .oof => .oof
+                    (parseMembers f nesting (skipWs r4) (key :: seen)).bind fun (ms, rest) => .ok ((key, v) :: ms, rest)
                   else if d = 125 then .ok ([(key, v)], r4)
                   else .fail
 /-- The loop of `parse_array_value`. -/
@@ -471,20 +479,11 @@ def parseElems : Nat → Nat → List Nat → Res (List Json × List Nat)
     match s with
     | [] => .fail
     | _ :: _ =>
-      match parseValue f nesting s with
-      | .fail => .fail
-      | .unsup => .unsup
-      | .oof => .oof
-      | .ok (v, r) =>
+      (parseValue f nesting s).bind fun (v, r) =>
         match skipWs r with
         | [] => .fail
         | d :: r2 =>
-          if d = 44 then
-            match parseElems f nesting (skipWs r2) with
-            | .ok (vs, rest) => .ok (v :: vs, rest)
-            | .fail => .fail
-            | .unsup => .unsup
-            | .oof => .oof
+          if d = 44 then (parseElems f nesting (skipWs r2)).bind fun (vs, rest) => .ok (v :: vs, rest)
           else if d = 93 then .ok ([v], r2)
           else .fail
 end
@@ -496,7 +495,7 @@ def prepare (s : List Nat) : List Nat := stripComments (cstr s)
     `json_parse_string_with_comments`).  The rest of the text after the root
     value is not looked at. -/
 def parse (s : List Nat) : Res Json :=
-  match parseValue ((prepare s).length + 1) 0 (prepare s) with
+  match parseValue (2 * (prepare s).length + 1) 0 (prepare s) with
   | .ok (v, _) => .ok v
   | .fail => .fail
   | .unsup => .unsup
